@@ -76,6 +76,8 @@ ASSUMED_IDENT = {"ClassName": "class names are Python identifiers (a class creat
                  "MemberName": "enum member names used in Literal[...] are identifiers"}
 
 EMIT_SINKS = {"add_line", "append", "extend", "indent"}
+BRACE_FREE = {"Lit", "Ident", "Flag", "IntStr", "ClassName", "MemberName"}  # kinds whose text cannot contain '{', '}' or '%'
+
 
 
 def _last2(node):
@@ -201,6 +203,26 @@ class FnChecker:
             return "Unknown"
         return "Unknown"
 
+    def template_kind(self, e, depth=0):
+        """Lit iff the expression is a string literal (or a local/module constant bound only to literals, or a
+        concatenation of such): text that may safely be re-read as a format template"""
+        if depth > 6:
+            return "Unknown"
+        if isinstance(e, ast.Constant) and isinstance(e.value, str):
+            return "Lit"
+        if isinstance(e, ast.JoinedStr):
+            # holes of brace-free kinds (identifiers, declared flag lists, integers) cannot introduce replacement fields
+            ok = all(isinstance(v, ast.Constant) or self.kind(v, depth + 1) in BRACE_FREE for v in e.values)
+            return "Lit" if ok else "Template"
+        if isinstance(e, ast.BinOp) and isinstance(e.op, ast.Add):
+            return "Lit" if self.template_kind(e.left, depth + 1) == "Lit" and self.template_kind(e.right, depth + 1) == "Lit" else "Template"
+        if isinstance(e, ast.Name):
+            if e.id in self.modconsts:
+                return "Lit"
+            if e.id in self.assigns and e.id not in self.params:
+                return "Lit" if all(self.template_kind(v, depth + 1) == "Lit" for v in self.assigns[e.id]) else "Template"
+        return "Template"
+
     def elem_kind(self, e, depth):
         """kind of the elements of an iterable of strings"""
         if e is None:
@@ -281,6 +303,15 @@ def scan_module(relpath):
                     if isinstance(v, ast.FormattedValue):
                         k = chk.kind(v)
                         holes.append(dict(module=relpath, function=fn.name, line=v.lineno, hole=ast.unparse(v.value) + ("!r" if v.conversion == ord("r") else ""), kind=k))
+            elif (isinstance(n, ast.Call) and isinstance(n.func, ast.Attribute) and n.func.attr in ("format", "format_map") and _reaches_code(fn, n, parents)
+                  and not _in_raise_or_message(fn, n, parents)):
+                # second-level interpolation: the template of str.format is re-read for {..}; it must be a pure
+                # literal (kind Lit), never text that already contains interpolated (schema-derived) material
+                tk = chk.template_kind(n.func.value)
+                holes.append(dict(module=relpath, function=fn.name, line=n.lineno, hole="<template of .format> " + ast.unparse(n.func.value)[:60], kind="Lit" if tk == "Lit" else "Template"))
+            elif isinstance(n, ast.BinOp) and isinstance(n.op, ast.Mod) and _stringy(n.left) and _reaches_code(fn, n, parents) and not _in_raise_or_message(fn, n, parents) \
+                    and chk.template_kind(n.left) != "Lit":
+                holes.append(dict(module=relpath, function=fn.name, line=n.lineno, hole="<template of %> " + ast.unparse(n.left)[:60], kind="Template"))
             elif isinstance(n, ast.BinOp) and isinstance(n.op, (ast.Add, ast.Mod)) and _stringy(n) and not isinstance(parents.get(id(n)), ast.BinOp):
                 if _in_raise_or_message(fn, n, parents) or not _reaches_code(fn, n, parents):
                     continue
@@ -325,7 +356,7 @@ def _reaches_code(fn, node, parents):
 ALPHABET = ["plain", "it's", 'say "hi"', "back\\slash", "new\nline", "tab\there", "{brace}", "%s %d", "ünï-cødé ✓", "'; import os; os._exit(7); '",
             "\\'", "a'b\"c\\", "", " ", "None", "{0}", "__class__", "x'] = __import__('builtins').__dict__.setdefault('C16_PWNED', 1); kwargs['x"]
 
-POSITIONS = ["meta_alias", "annotated_alias", "config_alias", "typeddict_key", "discriminator_field", "literal_str", "literal_bytes", "enum_value", "forbid_extra_keys"]
+POSITIONS = ["meta_alias", "annotated_alias", "config_alias", "typeddict_key", "typeddict_key_nested", "discriminator_field", "literal_str", "literal_bytes", "enum_value", "forbid_extra_keys"]
 
 
 def position_source(pos, s):
@@ -345,6 +376,10 @@ def position_source(pos, s):
                 "        forbid_extra_keys = True", "EXPECT_OUT = {S: 1}", "INST = C(1)"]
     elif pos == "typeddict_key":
         src += ["TD = TypedDict('TD', {S: int, 'other': NotRequired[int]})", "@dataclass", "class C(DataClassDictMixin):", "    x: TD", "EXPECT_OUT = {'x': {S: 1}}", "INST = C({S: 1})"]
+    elif pos == "typeddict_key_nested":
+        # the key text travels inside the *expression* handed to the value type's (un)packer
+        src += ["TD = TypedDict('TD', {S: collections.ChainMap[str, int], 'l': NotRequired[List[Optional[int]]], 'd': NotRequired[Dict[str, Tuple[int, ...]]]})",
+                "@dataclass", "class C(DataClassDictMixin):", "    x: TD", "EXPECT_OUT = {'x': {S: [{'a': 1}]}}", "INST = C({S: collections.ChainMap({'a': 1})})"]
     elif pos == "discriminator_field":
         src += ["@dataclass", "class C(DataClassDictMixin):", "    a: int = 0", "    class Config(BaseConfig):", "        discriminator = Discriminator(field=S, include_subtypes=True)",
                 "@dataclass", "class K(C):", "    b: int = 1", "setattr(K, S, 'k') if S.isidentifier() else type.__setattr__(K, S, 'k')",
@@ -418,6 +453,10 @@ def check(pid, tier):
                 assumed.add(ASSUMED_IDENT[k])
             if k == "Data":
                 obs.append(dict(id=oid, status="refuted", unit=f"{h['module']}:{h['line']}", detail=f"schema-supplied string {h['hole']!r} is spliced unquoted into generated code",
+                                witness=_hole_witness(h)))
+            elif k == "Template":
+                obs.append(dict(id=oid, status="refuted", unit=f"{h['module']}:{h['line']}",
+                                detail=f"{h['hole']}: text that already contains interpolated material is used as a format template, so braces / percent signs inside schema-supplied strings are re-interpreted",
                                 witness=_hole_witness(h)))
             elif k == "Unknown":
                 obs.append(dict(id=oid, status="refuted", unit=f"{h['module']}:{h['line']}", detail=f"hole {h['hole']!r} has no kind contract and no safe data flow (unclassified: fails closed)",
